@@ -48,7 +48,7 @@ BUCKETS = [
 DIRECTED = [
     ("span-in-option", "w", "package a:b;\nworld w { import f: func(a: option<list<s32>>, b: tuple<u8, option<map<u64, u16>>>); }\n", None),
     ("resource-uses-later-type", "w", "package a:b;\ninterface i { resource res { constructor(x: later); m: func() -> later; } record later { a: u8 } }\nworld w { export i; }\n", None),
-    ("libc-name", "w", "package a:uint8-t;\ninterface i { f: func(); }\nworld w { import i; export i; }\n", None),
+    ("libc-name", "w", "package uint8-t:b;\ninterface i { f: func(); }\nworld w { import i; export i; }\n", None),
     ("param-named-self", "w", "package a:b;\nworld w { import f: func(self: option<u32>) -> u32; }\n", None),
 ]
 GXX_FLAGS = ["-std=c++20", "-D_GLIBCXX_USE_DEPRECATED=0", "-fsyntax-only", "-Wno-attributes"]
